@@ -238,7 +238,7 @@ def correspondence(ctx, model_ok=True):
         cases.append(("manyerrors:mixed:%d" % n, "".join(("var ok%d = 1;\n" % k) if k % 2 else ("print(;\n") for k in range(2 * n)) + "print(\"after\");\n"))
         cases.append(("manyerrors:chars:%d" % n, "var a = 1;\n" + "@ " * n + "\nprint(a);\n"))
     for ch in ("@", "\u00e9", "`"):
-        for n in (1000, 20000, 120000) + ((500000,) if ctx.thorough else ()):
+        for n in (1000, 20000, 120000, 1000000) + ((4000000,) if ctx.thorough else ()):   # (a frame per error token overflows an 8 MB stack somewhere between 10^5 and 10^6)
             cases.append(("errorrun:%s:%d" % (ch.encode("unicode_escape").decode(), n), "// junk follows\n" + ch * n + "\nprint(1);\n"))
             cases.append(("errorrun-lines:%s:%d" % (ch.encode("unicode_escape").decode(), n), "// junk follows\n" + (ch * 100 + "\n") * (n // 100) + "print(1);\n"))
     from props import c04 as _c04
